@@ -23,6 +23,10 @@ CHECKS = {
          "Exploration: thousands of random terminating programs over the core forms evaluated form by form on one interpreter and on the reference evaluator; define-sugar flipped and every call routed through apply must give identical outcomes.",
          "Trusted: refeval.rs (reference evaluator with unit tests from R7RS examples), the generator's typing discipline. Programs whose integers leave i32 are outside the class (counted).",
          "DESIGN.md §5 C01"),
+ "C02": ("generated loop programs (loop shape x composition of tail contexts x N) with a host probe sampling the real machine stack address and the thread's live heap at every iteration; closed-form result oracle",
+         "Exploration with physical measurement: every shape x every single context, every depth-2 composition (quick: self shape; thorough: all 7 shapes), sampled depth-3; stack growth between the first eighth and the second half must stay below 2 KiB and live heap growth below 1 byte/iteration for N=4000 (thorough 40000).",
+         "Trusted: the probe (address of a local in a native procedure, counting global allocator per thread). Measured on this build only. Known finding: apply in tail position is not a tail call.",
+         "DESIGN.md §5 C02"),
  "C03": ("stateful operation histories (proptest choice sequences interpreted as a state machine) against the store model of the reference evaluator + identity-partition check on Rc addresses",
          "Exploration: thousands of histories of definitions, assignments, closure creations/calls and vector operations with aliasing through variables, arguments, lists, vectors and captured references; every form's value is compared with the store model and the partition of vector-valued variables into identity classes with the model's.",
          "Trusted: refeval.rs store model. Cycles through vectors are never created.",
@@ -63,6 +67,14 @@ CHECKS = {
          "Exploration: thousands of datum trees over every supported token class rendered with random inter-token layout must evaluate (quoted) to the tree they came from, two layouts alike; exhaustively, every string up to length 5 (thorough 6) over a 17-character alphabet is lexed by the real lexer and by the reference tokenizer: valid strings must give the same tokens with the same end locations, and no accepted text may have a token split before a non-delimiter.",
          "Trusted: reflex.rs (reference tokenizer written from R7RS 7.1.1 for the supported grammar, own unit tests). Known finding: #t/#f/#\\c are not delimiter-checked (pinned tests assert it).",
          "DESIGN.md §5 C06"),
+ "C17": ("generated program files run through the built binary from another working directory; oracle: reference evaluator's output + in-process evaluation of the same text for the diagnostic; non-file arguments",
+         "Exploration: 1500 (thorough 12000) process runs of random displaying programs with an optional injected fault, LF/CRLF, with/without final newline, absolute/relative path, optional own library with a decoy in the working directory; stdout, exit status and the single FILE:LINE:COL MESSAGE diagnostic are checked.",
+         "Trusted: refeval.rs display model for the unambiguous printable subset; the binary is rebuilt from /repo by ./check.",
+         "DESIGN.md §5 C17"),
+ "C19": ("random program pairs over a shared name pool interleaved over two instances on one thread, extra instances created at random points; self-differential oracle (B alone in a fresh thread)",
+         "Exploration: 2000 (thorough 30000) program pairs with colliding variables, procedures, macro keywords (incl. bundled ones) and a library name registered with different contents per instance; B's per-form outcomes must not depend on A, instance creation must always succeed.",
+         "Trusted: nothing beyond the driver (the oracle is the interpreter itself run alone).",
+         "DESIGN.md §5 C19"),
  "C18": ("exhaustive strings over a 10-character alphabet against a reference completeness predicate (hook H2); REPL sessions over a pipe with random line splittings (metamorphic) against in-process evaluation",
          "Exploration, exhaustive for the completeness predicate: every string up to length 7 (thorough 9: 1.1e9 strings) over ( ) \" ; LF # \\ | a SPACE; sessions through the built binary compare transcripts across line splittings and with in-process evaluation.",
          "Trusted: reflex::completeness (token-aware open-list depth); strings whose depth goes negative are not judged.",
